@@ -94,3 +94,11 @@ Theorem C01_sleeper_left_by_foreign_signal :
     = exec k a (issue m [KRevoke w]) (MThrow e) {| c_aid := a; c_stack := st |} outer.
 Proof. exact wake_foreign. Qed.
 Print Assumptions C01_sleeper_left_by_foreign_signal.
+
+(** (A) the tie to /repo's current source: every function this property's models were transcribed from has, in the
+    tree this run is checking, the normalised source it had when the models were validated (hashes regenerated from
+    /repo into gen/Generated.v on every run; pins in gen/SourcePins.v).  A change to one of them invalidates the
+    transcription until it is re-validated. *)
+From UsimGen Require SourcePins Pin_C01.
+Theorem C01_modelled_source_unchanged : forallb SourcePins.pin_ok Pin_C01.pins = true.
+Proof. exact Pin_C01.src_unchanged. Qed.
